@@ -475,8 +475,10 @@ func fixedCases() [][]string {
 		{"dedup-cancel-waiter", "#cfg dedup", "d.call 0 1", "d.call 0 1", "d.cancel 1", "d.sink 0 auto", "d.copy 0 ok"},
 		{"dedup-sink-error", "#cfg dedup", "d.call 0 0 1", "d.call 0 0", "d.sink 0 err 13 9", "d.sink 1 auto", "d.copy 1 ok"},
 		{"dedup-present-after-evict", "#cfg dedup", "d.seed 1", "d.call 0 1", "d.evict 1", "d.call 0 1", "d.sink 0 auto", "d.copy 0 ok"},
-		{"limit-one", "#cfg limit 1", "l.call 0 1", "l.call 0 2", "l.call 1 0", "l.cancel 1", "l.base 0 err 14 3"},
-		{"queue-cached", "#cfg queue 2 5", "q.clock 3", "q.call 0 1 2", "q.call 0 2", "q.base 0 ok", "q.clock 8", "q.call 0 1", "q.clock 9", "q.call 0 1 2", "q.base 1 ok", "q.base 3 ok"},
+		{"limit-one", "#cfg limit 1", "l.call 0 m 1", "l.call 0 m 2", "l.call 1 m 0", "l.cancel 1", "l.base 0 err 14 3"},
+		{"limit-entry-points", "#cfg limit 1", "l.call 0 c 1", "l.call 0 s 2", "l.call 0 c 3", "l.base 0 ok", "l.base 1 okn", "l.base 2 ok"},
+		{"dedup-entry-points", "#cfg dedup", "d.callc 0 1", "d.calls 0 1", "d.call 0 1 2", "d.sink 0 auto", "d.copy 0 ok", "d.sink 2 auto", "d.copy 2 ok"},
+		{"queue-cached", "#cfg queue 2 5", "q.clock 3", "q.call 0 m 1 2", "q.call 0 s 2", "q.base 0 ok", "q.clock 8", "q.call 0 c 1", "q.clock 9", "q.call 0 m 1 2", "q.base 1 ok", "q.base 3 ok"},
 		{"exist-size-one", "#cfg exist 1 10", "e.set 1", "e.set 2", "e.fm 5 5 1", "e.del 1", "e.fm 15 15 1", "e.fm 16 16 1", "e.fm 17 17 2", "e.fm 18 18 1 2"},
 		{"comp-empty-blob", "#cfg comp cache dedup.local", "c.set src 0 5", "c.get 0", "c.del sink 0", "c.ffm 0 1", "c.del sink 0", "c.repl 0 1"},
 		{"comp-dedup-local", "#cfg comp cache dedup.local", "c.set src 1 11", "c.get 1", "c.get 2", "c.fault sink 14 1", "c.get 1", "c.ffm 1 2 3"},
